@@ -87,6 +87,45 @@ class FnContract:
         self.used = False
 
 
+def _subst_names(obj, sub, skip=('tags', 'finding', 'name', 'file', 'path', 'attrs', 'ret', 'used', 'drop', 'no_ret', 'optional', 'closure', 'kind')):
+    """copy of a contract object with `sub` applied to every piece of contract text (strings inside lists / tuples / dicts / Clause /
+    FnContract), leaving tags, names and ids alone"""
+    if isinstance(obj, str):
+        return sub(obj)
+    if isinstance(obj, list):
+        return [_subst_names(x, sub, skip) for x in obj]
+    if isinstance(obj, tuple):
+        return tuple(_subst_names(x, sub, skip) for x in obj)
+    if isinstance(obj, dict):
+        return {k: (v if k in skip else _subst_names(v, sub, skip)) for k, v in obj.items()}
+    if isinstance(obj, (Clause, FnContract)):
+        import copy
+        o2 = copy.copy(obj)
+        for k, v in list(vars(obj).items()):
+            if k not in skip:
+                setattr(o2, k, _subst_names(v, sub, skip))
+        return o2
+    return obj
+
+
+def renamed_locals(old_names, new_names):
+    """positional comparison of the binder lists of a function (baseline vs working tree): {old: new} when the lists have the same length
+    and differ only by a consistent renaming; else None"""
+    if old_names is None or len(old_names) != len(new_names) or old_names == new_names:
+        return None
+    m = {}
+    for o, n in zip(old_names, new_names):
+        if m.get(o, n) != n:
+            return None
+        m[o] = n
+    inv = {}
+    for o, n in m.items():
+        if inv.get(n, o) != o:
+            return None
+        inv[n] = o
+    return {o: n for o, n in m.items() if o != n} or None
+
+
 class UnitSpec:
     def __init__(self, name, crate_root, root_file, default_tags):
         self.name = name
@@ -153,6 +192,8 @@ class Generated:
         self.files = {}       # file -> source bytes
         self.inserted = {}    # name of an inserted (generated) fn -> dict(tags, finding, desc)
         self.lost = []        # (description, tags): anchors of contract text that no longer exist in the source
+        self.incomplete = {}  # fnkey -> [reasons]: functions whose proof text is structurally incomplete on this tree
+        self.inlined = []     # R17: 'helper fnkey -> caller fnkey' for every inlined call of a helper the contracts do not know
 
     def count(self, rule, n=1):
         self.rewrites[rule] = self.rewrites.get(rule, 0) + n
@@ -184,6 +225,13 @@ class Splicer:
         self.anch = {}
         self.tmpdir = None
         self.lifts = {}
+        # the functions (and their loop counts) the contracts of this unit were written against: 'file:path' -> {'loops': n}.
+        # A function that is not listed is NEW on this tree (R17 / incompleteness rules); no baseline file = rules off.
+        self.baseline = None
+        bp = os.path.join('/verif/contracts', getattr(unit, 'name', '') or '', 'baseline.json')
+        if getattr(unit, 'name', None) and os.path.exists(bp) and not getattr(unit, 'no_baseline', False):
+            self.baseline = json.load(open(bp))
+        self.newfns = {}      # file -> {(qual, name): (record, simple)}
 
     # ------------------------------------------------------------ source loading
     def module_file(self, parent_file, modname):
@@ -352,6 +400,23 @@ class Splicer:
         def in_dropped(s):
             return any(a <= s < b for a, b in dropped_spans)
 
+        self.newfns[f] = {}
+        if self.baseline is not None:
+            for r in recs:
+                if r['rec'] != 'fn' or r['cfg_test'] or in_dropped(r['item'][0]):
+                    continue
+                if '%s:%s' % (f, r['path']) in self.baseline or (f, r['path']) in self.u.fns:
+                    continue
+                # a function the contracts do not know.  SIMPLE (R17 can inline its calls): straight-line body without return / ? /
+                # loops / nested fns / generics, not a trait-impl method, not self-recursive, no by-value self
+                simple = bool(r['body']) and r.get('returns', 1) == 0 and r.get('tries', 1) == 0 and not r['loops'] and r['nested_fns'] == 0 \
+                    and not r.get('generic', True) and ' for ' not in r['qual'] \
+                    and not any(p.get('recv') == 'self' for p in r['params']) and not any(c['name'] == r['name'] for c in r.get('calls', [])) \
+                    and all('recv' in p or 'ty' in p for p in r['params'])
+                k = (r['qual'], r['name'])
+                if k in self.newfns[f]:
+                    simple = False
+                self.newfns[f][k] = (r, simple)
         for r in recs:
             if r['rec'] != 'fn' or r['cfg_test']:
                 continue
@@ -393,12 +458,47 @@ class Splicer:
             fc.used = True
             if fc.tags is not None:
                 tags = fc.tags
+            be = (self.baseline or {}).get(fnkey) or {}
+            ren = renamed_locals(be.get('names'), [p.get('name') for p in r['params']] + [b['name'] for b in r['binders']])
+            if ren:
+                # R18: the function's parameters / locals were renamed (same binders, position by position): the contract text, which names
+                # them, is renamed with them.  Not a change of the verified code - the contract follows the code.
+                rx = re.compile(r'(?<![\w.])(%s)(?![\w(!])' % '|'.join(re.escape(o) for o in sorted(ren, key=len, reverse=True)))
+                used = fc.used
+                fc = _subst_names(fc, lambda t: rx.sub(lambda mm: ren[mm.group(1)], t))
+                fc.used = used
+                u.fns[key] = fc
+                self.g.count('R18')
+                self.g.renamed = getattr(self.g, 'renamed', []) + ['%s: %s' % (fnkey, ', '.join('%s -> %s' % kv for kv in sorted(ren.items())))]
         explicit = fc is not None and fc.tags is not None
         body_txt = data[r['body'][0]:r['body'][1]].decode() if r['body'] else ''
         self.g.panic_sites += len(re.findall(r'\b(assert!|assert_eq!|panic!|unreachable!|\.expect\(|\.unwrap\(\))', body_txt))
         info = dict(file=f, path=r['path'], contracted=fc is not None, external_body=False, external=False,
                     tags=sorted(tags), explicit_tags=explicit, line=data[:r['item'][0]].count(b'\n') + 1)
         self.g.functions.append(info)
+        nf = self.newfns.get(f, {}).get((r['qual'], r['name']))
+        if nf is not None and nf[0] is r:
+            if nf[1]:
+                # R17: a simple helper the contracts do not know has no contract; every call of it inside a verified body is replaced
+                # by its body, so the code it contributes IS verified, in context
+                info['inlined_helper'] = True
+                nm = r['name'].encode()
+                occ = sum(len(re.findall(rb'\b' + re.escape(nm) + rb'\b', d)) for d in self.src.values())
+                ncalls = sum(1 for recs2 in self.anch.values() for r2 in recs2 if r2['rec'] == 'fn' and not r2['cfg_test']
+                             for c in r2.get('calls', []) if c['name'] == r['name'])
+                if occ == ncalls + 1:
+                    # every mention of the helper is a call recorded by the anchors tool: it is not verified on its own
+                    ins(r['item'][0], '#[verifier::external]\n', {'rule': 'R17'})
+                    info['external'] = True
+                    self.fn_range_marks(f, r, ins, fnkey)
+                    return
+                # the helper is also mentioned elsewhere (e.g. passed as a function value): it stays in the unit under the empty contract,
+                # and a failed obligation inside it, out of context, only says that it has no contract
+                self.incomplete(fnkey, 'helper unknown to the contracts: verified where it is inlined into its callers (R17), not on its own')
+            else:
+                self.incomplete(fnkey, 'function unknown to the contracts (not in the baseline of this unit)')
+        elif self.baseline is not None and fnkey in self.baseline and self.baseline[fnkey].get('loops') != len(r['loops']):
+            self.incomplete(fnkey, 'the number of loops changed (%s -> %d): loop contracts are attached by position' % (self.baseline[fnkey].get('loops'), len(r['loops'])))
         in_ext_impl = any(r['path'].startswith(x + '::') for x in u.external_impls)
         if in_ext_impl:
             info['external'] = True
@@ -482,8 +582,17 @@ class Splicer:
             self.rewrite_body(f, r, data, ins, dele, fc)
         self.fn_range_marks(f, r, ins, fnkey)
 
-    def lose(self, desc, tags):
+    def lose(self, desc, tags, fn=None):
         self.g.lost.append((desc, sorted(tags)))
+        if fn:
+            self.incomplete(fn, 'lost anchor: ' + desc)
+
+    def incomplete(self, fnkey, why):
+        """the proof text of this function is structurally incomplete on this tree (a contract anchor vanished, it calls or is a
+        function the contracts do not know, its loops changed): a failed obligation inside it means 'needs contract', not 'violation'"""
+        self.g.incomplete.setdefault(fnkey, [])
+        if why not in self.g.incomplete[fnkey]:
+            self.g.incomplete[fnkey].append(why)
 
     def toplevel_start(self, f, off):
         """start of the outermost item of file f that contains byte offset off"""
@@ -502,7 +611,7 @@ class Splicer:
             k = L['closure']
             if k >= len(r['closures']):
                 if not L.get('optional'):
-                    self.lose('%s has no closure #%d to lift' % (fnkey, k), tags)
+                    self.lose('%s has no closure #%d to lift' % (fnkey, k), tags, fn=fnkey)
                 continue
             cl = r['closures'][k]
             lid = '%s#lift%d' % (fnkey, k)
@@ -532,7 +641,7 @@ class Splicer:
             for oi, o in enumerate(L.get('outline', [])):
                 ms = list(re.finditer(o['rx'], btxt, re.S))
                 if len(ms) != 1:
-                    self.lose('outlined expression %r in %s (%d matches)' % (o['rx'], lid, len(ms)), tags)
+                    self.lose('outlined expression %r in %s (%d matches)' % (o['rx'], lid, len(ms)), tags, fn=fnkey)
                     continue
                 mm = ms[0]
                 s0 = cl['body'][0] + len(btxt[:mm.start()].encode())
@@ -615,9 +724,48 @@ class Splicer:
         if fc is not None and fc.tags is not None:
             tags = fc.tags
         indent = '            '
+        # R17: calls of helpers the contracts do not know
+        for c in r.get('calls', []):
+            tgt = self.newfns.get(f, {}).get((r['qual'] if c['form'] != 'path' else '', c['name']))
+            if not tgt:
+                continue
+            hr, simple = tgt
+            hkey = '%s:%s' % (f, hr['path'])
+            recv = next((p for p in hr['params'] if 'recv' in p), None)
+            params = [p for p in hr['params'] if 'recv' not in p]
+            caller_recv = next((p.get('recv') for p in r['params'] if 'recv' in p), None)
+            ok = simple and ((c['form'] == 'self_method') == (recv is not None)) and len(params) == len(c['args'])
+            if ok and recv:
+                ok = caller_recv in ('&mut self', '&self') and not (recv['recv'] == '&mut self' and caller_recv == '&self')
+            s0, e0 = c['span']
+            trailing = bool(c['args']) and b',' in data[c['args'][-1][1]:e0]
+            if not ok or (len(params) == 1 and trailing):
+                self.incomplete(fnkey, 'calls %s, which the contracts do not know%s' % (hkey, '' if not simple else ' (call form not inlinable)'))
+                continue
+            hbody = data[hr['body'][0] + 1:hr['body'][1] - 1].decode()
+            if not params:
+                dele(s0, e0, 'R17', '{ /* R17: body of %s */ %s }' % (hr['name'], hbody))
+            else:
+                pats = [data[p['pat'][0]:p['pat'][1]].decode() for p in params]
+                tys = [data[p['ty'][0]:p['ty'][1]].decode() for p in params]
+                asc = not any(re.search(r'\bimpl\b', t) for t in tys)
+                if len(params) == 1:
+                    head = '{ let %s%s = (' % (pats[0], (': ' + tys[0]) if asc else '')
+                else:
+                    head = '{ let (%s)%s = (' % (', '.join(pats), (': (%s)' % ', '.join(tys)) if asc else '')
+                dele(s0, c['args'][0][0], 'R17', head)
+                dele(c['args'][-1][1], e0, 'R17', '); /* R17: body of %s */ %s }' % (hr['name'], hbody))
+            self.g.inlined.append('%s inlined into %s' % (hkey, fnkey))
         # loops
         for i, lp in enumerate(r['loops']):
             spec = (fc.loops.get(i) if fc else None)
+            if spec is not None and lp['kind'] == 'loop' and lp.get('head_break'):
+                # R16: `loop { if C { break; } REST }` is read as `while !(C) { REST }` (the same program; a loop contract written for
+                # either form then applies to both)
+                hb = lp['head_break']
+                cond = data[hb['cond'][0]:hb['cond'][1]].decode()
+                dele(lp['kw'][0], lp['kw'][1], 'R16', 'while !(%s)' % cond)
+                dele(hb['stmt'][0], hb['stmt'][1], 'R16', '/* R16: guard moved into the loop condition */')
             if u.reveal_strlits:
                 lits = []
                 for l in r.get('strlits', []):
@@ -688,10 +836,10 @@ class Splicer:
             for i in fc.loops:
                 if i >= len(r['loops']) and not (fc.loops[i] or {}).get('optional'):
                     # (an `optional` loop contract only helps the proof: without the loop the function's own postcondition decides)
-                    self.lose('%s has no loop #%d' % (fnkey, i), tags)
+                    self.lose('%s has no loop #%d' % (fnkey, i), tags, fn=fnkey)
             for i in fc.closures:
                 if i >= len(r['closures']):
-                    self.lose('%s has no closure #%d' % (fnkey, i), tags)
+                    self.lose('%s has no closure #%d' % (fnkey, i), tags, fn=fnkey)
         # closures
         for i, cl in enumerate(r['closures']):
             spec = (fc.closures.get(i) if fc else None)
@@ -701,7 +849,7 @@ class Splicer:
                 # R12: a closure literal passed as a call argument is bound to a local in a block that wraps
                 # the call, so that ghost code can name it (closure construction has no side effects)
                 if not cl.get('call'):
-                    self.lose('closure #%d of %s is not a direct call argument' % (i, fnkey), tags)
+                    self.lose('closure #%d of %s is not a direct call argument' % (i, fnkey), tags, fn=fnkey)
                     continue
                 name = spec['bind']
                 params = spec.get('params') or data[cl['or1'][1]:cl['or2'][0]].decode()
@@ -775,7 +923,7 @@ class Splicer:
                 after = 'after' in bp[2:]
                 ms = list(re.finditer(rx, txt))
                 if not ms and 'optional' not in bp[2:]:
-                    self.lose('proof-hint site %r in %s' % (rx, fnkey), tags)
+                    self.lose('proof-hint site %r in %s' % (rx, fnkey), tags, fn=fnkey)
                 htags = [x[5:] for x in bp[2:] if isinstance(x, str) and x.startswith('tags=')]
                 for mm in ms:
                     at = mm.end() if after else mm.start()
@@ -794,7 +942,7 @@ class Splicer:
                 ms = list(re.finditer(o['rx'], txt, re.S))
                 if len(ms) != 1:
                     if not (len(ms) == 0 and o.get('optional')):
-                        self.lose('outlined expression %r in %s (%d matches)' % (o['rx'], fnkey, len(ms)), tags)
+                        self.lose('outlined expression %r in %s (%d matches)' % (o['rx'], fnkey, len(ms)), tags, fn=fnkey)
                     continue
                 mm = ms[0]
                 s0 = b0 + len(txt[:mm.start()].encode())
@@ -821,7 +969,7 @@ class Splicer:
             for (rx, template, wtags, wname) in getattr(fc, 'rebind', []):
                 ms = list(re.finditer(rx, txt))
                 if len(ms) != 1:
-                    self.lose('call %r in %s (%s; %d matches)' % (rx, fnkey, wname, len(ms)), set(wtags.split()))
+                    self.lose('call %r in %s (%s; %d matches)' % (rx, fnkey, wname, len(ms)), set(wtags.split()), fn=fnkey)
                     continue
                 mm = ms[0]
                 m = self.marker('assert', fnkey, f, 0, set(wtags.split()), Clause(template, wtags, name=wname))
@@ -832,7 +980,7 @@ class Splicer:
             for (rx, text, wtags, wname) in getattr(fc, 'wrap_exprs', []):
                 ms = list(re.finditer(rx, txt))
                 if not ms:
-                    self.lose('expression %r in %s (%s)' % (rx, fnkey, wname), set(wtags.split()))
+                    self.lose('expression %r in %s (%s)' % (rx, fnkey, wname), set(wtags.split()), fn=fnkey)
                 for mm in ms:
                     m = self.marker('assert', fnkey, f, 0, set(wtags.split()), Clause(text, wtags, name=wname))
                     wtext = text
@@ -858,7 +1006,7 @@ class Splicer:
                         dele(s, s + len(old.encode()), 'R11', new)
                         n += 1
                 if n == 0:
-                    self.lose('binder %s in %s' % (old, fnkey), tags)
+                    self.lose('binder %s in %s' % (old, fnkey), tags, fn=fnkey)
 
     # ------------------------------------------------------------ assemble
     def build(self):
